@@ -503,7 +503,10 @@ func (h *H[T]) execShare(p *shareProgram, sim *simrt.Sim, label string) *shareRe
 	for ti, t := range roots { // (the library may have started tasks of its own)
 		res.rogue[ti] = t.PanicVal
 	}
-	res.final = snapshotFull(big)
+	// (the final inspection calls the library too: it runs as a task as well)
+	if !sim.RaceAborted && sim.Deadlocked == "" {
+		sim.Setup(func() { res.final = snapshotFull(big) })
+	}
 	return res
 }
 
